@@ -427,3 +427,154 @@ Definition is_release (l : label) : bool :=
 (* number of copies of Send n's value delivered so far, over all subscriptions *)
 Definition total (st : state) (n : nat) : nat :=
   list_sum (map (fun s => count_occ Nat.eq_dec (delivered st s) n) (allsubs st)).
+
+(* ------------------------------------------------------------------------- *)
+(* The model as an acceptor of recorded histories of the real event.Feed /
+   event.FeedOf (correspondence (b) of C50).  A recorded history is the globally
+   ordered log of invocations/returns of Subscribe, Send, Unsubscribe and of every
+   receive; [accepts] decides whether it is explained by the model's rules, i.e.
+   whether it satisfies what FeedProofs.v proves of every trace of [step]:
+     a1  a Send's return count = number of receives of its value        (send_exactly_once)
+     a2  a subscription receives a value at most once                   (send_exactly_once)
+     a3  exactly once if Subscribe returned before the Send was invoked
+         and Unsubscribe (if any) was invoked after the Send returned   (send_exactly_once)
+     a4  one global order of Sends (consistent with real time) explains
+         every subscriber's receive order                               (per_subscriber_order)
+     a5  nothing is delivered after Unsubscribe returned, nor before
+         Subscribe was invoked                          (nothing_after_unsubscribe_returns) *)
+From Coq Require Import NArith.
+
+Inductive hev :=
+| HSubInv (s : N) | HSubRet (s : N)
+| HSendInv (v : N) | HSendRet (v cnt : N)
+| HUnsubInv (s : N) | HUnsubRet (s : N)
+| HRecv (s v : N) (late : bool).   (* late: drained after the whole run ended *)
+
+Fixpoint index_from (i : N) (h : list hev) : list (N * hev) :=
+  match h with
+  | [] => []
+  | e :: r => (i, e) :: index_from (N.succ i) r
+  end.
+
+Fixpoint first_pos (p : hev -> bool) (h : list (N * hev)) : option N :=
+  match h with
+  | [] => None
+  | (i, e) :: r => if p e then Some i else first_pos p r
+  end.
+
+Definition count_ev (p : hev -> bool) (h : list (N * hev)) : nat :=
+  length (filter (fun ie => p (snd ie)) h).
+
+Definition is_sub_inv s e := match e with HSubInv x => N.eqb x s | _ => false end.
+Definition is_sub_ret s e := match e with HSubRet x => N.eqb x s | _ => false end.
+Definition is_send_inv v e := match e with HSendInv x => N.eqb x v | _ => false end.
+Definition is_send_ret v e := match e with HSendRet x _ => N.eqb x v | _ => false end.
+Definition is_unsub_inv s e := match e with HUnsubInv x => N.eqb x s | _ => false end.
+Definition is_unsub_ret s e := match e with HUnsubRet x => N.eqb x s | _ => false end.
+Definition is_recv s v e := match e with HRecv x y _ => N.eqb x s && N.eqb y v | _ => false end.
+Definition is_recv_val v e := match e with HRecv _ y _ => N.eqb y v | _ => false end.
+
+(* p1 strictly before p2 (both must exist) *)
+Definition pos_lt (a b : option N) : bool :=
+  match a, b with Some x, Some y => N.ltb x y | _, _ => false end.
+
+Definition subs_of (h : list (N * hev)) : list N :=
+  flat_map (fun ie => match snd ie with HSubInv s => [s] | _ => [] end) h.
+Definition vals_of (h : list (N * hev)) : list N :=
+  flat_map (fun ie => match snd ie with HSendInv v => [v] | _ => [] end) h.
+Definition recvs_of (s : N) (h : list (N * hev)) : list N :=
+  flat_map (fun ie => match snd ie with HRecv x v _ => if N.eqb x s then [v] else [] | _ => [] end) h.
+
+(* well-formed, complete history: every operation invoked at most once per id,
+   returns follow their invocations, every Send returned *)
+Definition acc_wf (h : list (N * hev)) : bool :=
+  forallb (fun ie =>
+    match snd ie with
+    | HSubInv s => Nat.eqb (count_ev (is_sub_inv s) h) 1
+    | HSubRet s => Nat.eqb (count_ev (is_sub_ret s) h) 1 &&
+                   pos_lt (first_pos (is_sub_inv s) h) (Some (fst ie))
+    | HSendInv v => Nat.eqb (count_ev (is_send_inv v) h) 1 &&
+                    Nat.eqb (count_ev (is_send_ret v) h) 1
+    | HSendRet v _ => Nat.eqb (count_ev (is_send_ret v) h) 1 &&
+                      pos_lt (first_pos (is_send_inv v) h) (Some (fst ie))
+    | HUnsubInv s => Nat.eqb (count_ev (is_unsub_inv s) h) 1 &&
+                     pos_lt (first_pos (is_sub_ret s) h) (Some (fst ie))
+    | HUnsubRet s => Nat.eqb (count_ev (is_unsub_ret s) h) 1 &&
+                     pos_lt (first_pos (is_unsub_inv s) h) (Some (fst ie))
+    | HRecv s v _ => true
+    end) h.
+
+Definition acc_count (h : list (N * hev)) : bool :=
+  forallb (fun ie =>
+    match snd ie with
+    | HSendRet v cnt => N.eqb cnt (N.of_nat (count_ev (is_recv_val v) h))
+    | _ => true
+    end) h.
+
+Definition acc_at_most_once (h : list (N * hev)) : bool :=
+  forallb (fun ie =>
+    match snd ie with
+    | HRecv s v _ => Nat.eqb (count_ev (is_recv s v) h) 1
+    | _ => true
+    end) h.
+
+Definition active_for (h : list (N * hev)) (s v : N) : bool :=
+  pos_lt (first_pos (is_sub_ret s) h) (first_pos (is_send_inv v) h) &&
+  match first_pos (is_unsub_inv s) h with
+  | None => match first_pos (is_send_ret v) h with Some _ => true | None => false end
+  | Some u => pos_lt (first_pos (is_send_ret v) h) (Some u)
+  end.
+
+Definition acc_exactly_once (h : list (N * hev)) : bool :=
+  forallb (fun s => forallb (fun v =>
+    if active_for h s v then Nat.eqb (count_ev (is_recv s v) h) 1 else true) (vals_of h)) (subs_of h).
+
+Fixpoint consecutive (l : list N) : list (N * N) :=
+  match l with
+  | a :: ((b :: _) as r) => (a, b) :: consecutive r
+  | _ => []
+  end.
+
+Definition order_edges (h : list (N * hev)) : list (N * N) :=
+  flat_map (fun s => consecutive (recvs_of s h)) (subs_of h) ++
+  flat_map (fun v => flat_map (fun w =>
+    if negb (N.eqb v w) && pos_lt (first_pos (is_send_ret v) h) (first_pos (is_send_inv w) h)
+    then [(v, w)] else []) (vals_of h)) (vals_of h).
+
+(* Kahn: repeatedly drop the nodes without incoming edge *)
+Fixpoint acyclic (fuel : nat) (nodes : list N) (edges : list (N * N)) : bool :=
+  match nodes with
+  | [] => true
+  | _ :: _ =>
+      match fuel with
+      | 0 => false
+      | S f =>
+          let rest := filter (fun n => existsb (fun e => N.eqb (snd e) n) edges) nodes in
+          if Nat.eqb (length rest) (length nodes) then false
+          else acyclic f rest (filter (fun e => existsb (N.eqb (fst e)) rest) edges)
+      end
+  end.
+
+(* nodes: every value that was sent or received *)
+Definition acc_order (h : list (N * hev)) : bool :=
+  let recvd := flat_map (fun ie => match snd ie with HRecv _ v _ => [v] | _ => [] end) h in
+  let nodes := nodup N.eq_dec (vals_of h ++ recvd) in
+  acyclic (S (length nodes)) nodes (order_edges h).
+
+Definition acc_window (h : list (N * hev)) : bool :=
+  forallb (fun ie =>
+    match snd ie with
+    | HRecv s v late =>
+        pos_lt (first_pos (is_sub_inv s) h) (first_pos (is_send_ret v) h) &&
+        match first_pos (is_unsub_ret s) h with
+        | None => true
+        | Some u => negb late && pos_lt (first_pos (is_send_inv v) h) (Some u)
+        end
+    | _ => true
+    end) h.
+
+Definition accept_bits (h0 : list hev) : list bool :=
+  let h := index_from 0%N h0 in
+  [acc_wf h; acc_count h; acc_at_most_once h; acc_exactly_once h; acc_order h; acc_window h].
+
+Definition accepts (h0 : list hev) : bool := forallb (fun b => b) (accept_bits h0).
